@@ -60,10 +60,19 @@ func (p *ParserPlanner) Process(ctx *shared.PlannerContext,
 			if entry.Err != nil {
 				return nil
 			}
-			var err error
-			entry.Labels, err = parser(entry.Message, &entry.Labels)
+			// a line the parser cannot read (plain text, an array, cut-off JSON) yields no labels and stays in the
+			// stream with the labels it had, as on the ClickHouse path; it does not fail the query
+			labels := make(map[string]string, len(entry.Labels)+8)
+			for k, v := range entry.Labels {
+				labels[k] = v
+			}
+			labels, err := parser(entry.Message, &labels)
+			if err != nil {
+				return nil
+			}
+			entry.Labels = labels
 			entry.Fingerprint = fingerprint(entry.Labels)
-			return err
+			return nil
 		},
 		OnAfterEntriesSlice: func(entries []shared.LogEntry, c chan []shared.LogEntry) error {
 			c <- entries
